@@ -46,15 +46,25 @@ class CommandSigner(sec.DigestSha256Signer):
 
 class NfdRegister(PrefixRegisterer):
     _prefix_register_semaphore: aio.Semaphore = None
+    _semaphore_loop: aio.AbstractEventLoop = None
     _last_command_timestamp: int = 0
 
     def __init__(self):
         super().__init__()
         self._prefix_register_semaphore = aio.Semaphore(1)
 
+    def _command_semaphore(self) -> aio.Semaphore:
+        # A semaphore belongs to the event loop it was first waited on, and every run_forever() of the
+        # application starts a new loop: use a fresh one when the loop has changed
+        loop = aio.get_running_loop()
+        if self._semaphore_loop is not loop:
+            self._prefix_register_semaphore = aio.Semaphore(1)
+            self._semaphore_loop = loop
+        return self._prefix_register_semaphore
+
     async def register(self, name: enc.NonStrictName) -> bool:
         # Fix the issue that NFD only allows one packet signed by a specific key for a timestamp number
-        async with self._prefix_register_semaphore:
+        async with self._command_semaphore():
             # Wait until the clock shows a timestamp that has not been used yet, however long that takes
             while (now := utils.timestamp()) <= self._last_command_timestamp:
                 await aio.sleep(0.001)
@@ -85,7 +95,7 @@ class NfdRegister(PrefixRegisterer):
 
     async def unregister(self, name: enc.NonStrictName) -> bool:
         # Fix the issue that NFD only allows one packet signed by a specific key for a timestamp number
-        async with self._prefix_register_semaphore:
+        async with self._command_semaphore():
             # Wait until the clock shows a timestamp that has not been used yet, however long that takes
             while (now := utils.timestamp()) <= self._last_command_timestamp:
                 await aio.sleep(0.001)
